@@ -377,6 +377,22 @@ func (e *fdEngine) Generate(seed uint64, tier string, run int) (json.RawMessage,
 			return json.Marshal(c)
 		}
 	}
+	if rk.Chance(0.012) {
+		// structure-aware adversarial plan: the packed point numbers of a glyph's variation data
+		// rewritten in place (same length) so that the running sum leaves the glyph or wraps
+		name := kernel.Pick(rf, corpus.Variable)
+		pimg := corpus.Bytes(name)
+		if blocks := faultdisk.GvarPointBlocks(pimg, 4); len(blocks) > 0 {
+			b := kernel.Pick(rf, blocks)
+			n := b.Len
+			if n > 130 {
+				n = 130 // the count byte holds at most 127 points; the tail of the block keeps its bytes
+			}
+			c.Font, c.Gid = name, b.GID
+			c.Bytes = []ByteFault{{Kind: "bytes", Off: b.Off, Data: faultdisk.AdversarialPoints(n, rf.Intn(4)), Aim: "gvar:point-numbers"}}
+			return json.Marshal(c)
+		}
+	}
 	if rk.Chance(0.01) {
 		// structure-aware adversarial plan: sbix glyph records turned into references to other
 		// glyphs (graphic types 'dupe' and 'flip'): chains, cycles and targets beyond the glyph count
